@@ -522,6 +522,9 @@ def features(c):
     return {"string_below_root": "yes" if below else "no", "string_at_root": "yes" if atroot else "no",
             "cyclic": "no" if ref_acyclic(mg, c["a"]) and ref_acyclic(mg, c["b"]) else "yes",
             "strdot": "yes" if any(nodes[i][0] == "d" for r in (c["a"], c["b"]) for i in ref_reach(mg, r) if i < n) else "no",
+            # a '.'/2 structure cell and a string cell in the same term: unify_structure has no PStrLoc arm (finding C10-4)
+            "strdot_meets_string": "yes" if (any(nodes[i][0] == "d" for r in (c["a"], c["b"]) for i in ref_reach(mg, r) if i < n)
+                                             and any(stringish(i) for r in (c["a"], c["b"]) for i in ref_reach(mg, r) if i < n)) else "no",
             "build": c["kind"]}
 
 
@@ -699,8 +702,8 @@ def run(ctx):
         cases = [norm_case(c, "k%d" % i) for i, c in enumerate(diff.load_corpus("C24")) if "nodes" in c]
         cases += fixed_cases()
         if tier == "quick":
-            cases += gen_cases(rng, 250, "s", 4)
-            cases += gen_cases(rng, 350, "m", 8)
+            cases += gen_cases(rng, 200, "s", 4)
+            cases += gen_cases(rng, 250, "m", 8)
         else:
             cases += gen_cases(rng, 4000, "s", 4)
             cases += gen_cases(rng, 6000, "m", 8)
@@ -769,7 +772,7 @@ def run(ctx):
     return {
         "evaluations": len(cases) * 2 + len(specials),
         "distinct_nontrivial": len(distinct),
-        "rule": "12 fixed classic shapes + random term graphs (quick: 250 with <=4 and 350 with <=8 abstract nodes; thorough: 4000/6000 and 2000 with <=12): "
+        "rule": "12 fixed classic shapes + random term graphs (quick: 200 with <=4 and 250 with <=8 abstract nodes; thorough: 4000/6000 and 2000 with <=12): "
                 "nodes are variables, constants, f/g/h compounds of arity 1-3, list cells, partial strings (partial_string/3) and complete strings, children "
                 "drawn uniformly from all nodes (back edges, self loops, sharing); 15% forced finite DAGs, 15% ground; 45% of the small graphs are paired with a "
                 "differently shaped (duplicated / cross-linked / sometimes perturbed) presentation of the same rational trees as second root; built by body "
